@@ -188,3 +188,7 @@ def exhaustive_cases():
             for b in range(-1, d + 3):
                 out.append(["op", t, ["cut_out", a, b]])
     return out
+
+
+from props import envrecv  # noqa: E402
+envrecv.install(globals(), "cut_out", 0.05)      # 5 % of the cases: an envelope is the receiver (judged as in C11)
